@@ -19,7 +19,14 @@ RULE = ("(1) Nodes.typed_value vs the model on every text of length <= L over 16
         "those of 4) over {null, three hashes, the empty hash, two scalars} with at least one hash (Arrays-of-Hashes, Arrays-of-Hashes with "
         "null members, records mixed with scalars), at the root and under a key, x 9 operators x terms naming a key of some / of no record, "
         "the text of null, the empty term - judged without a model: no exception but a YAML Path error, inverted = exactly the members the "
-        "plain search does not yield, a null member selected exactly when the typed rules match null; (5) the same through collectors: documents of 3 collections of numbers whose "
+        "plain search does not yield, a null member selected exactly when the typed rules match null; (4c) searches on a NAMED attribute "
+        "`[a OP term]` / `[a!OP term]` and on an attribute path `[a.b OP term]` over lists of records some of which have NO value at the "
+        "attribute: every list of <= 3 members (and seeded random lists of 4-7) over {a record holding the attribute with one of 5 values "
+        "(ints, text, Boolean, null), a record with other keys only, an empty record (for a.b: a record whose `a` lacks `b`), a null member, "
+        "a stray scalar} with at least one record holding it, at the root and under a key, x 9 operators x 7 terms - each record is "
+        "answered from its OWN value: the plain result must be exactly the records whose own value the typed rules match (model "
+        "C12.attrscan, theorems attr_plain_is_filter / attr_inverted_is_complement), never a record without a value there whatever record "
+        "precedes it (also judged without the model), the inverted result exactly the other members; (5) the same through collectors: documents of 3 collections of numbers whose "
         "text order differs from their numeric order (digit counts, negatives, floats; some with numeric-looking / plain "
         "strings), every grouping (X), ((X)), (X)+(Y), ((X)+(Y)), (((X)+(Y))+(Z)), ((X)+((Y)+(Z))) ... of their members, both "
         "notations, followed by [.OP term] plain and inverted: the result must be the collected members the typed rules "
@@ -479,6 +486,157 @@ def rec_chunk(cases):
     return stats, viol[:40], [], []
 
 
+# --------------------------------------------------------------------------- named-attribute searches over lists of records
+
+ATTR_VALUES = [5, 1, "ab", True, None]                                  # a record's own value at the attribute
+ATTR_ABSENT = [{"k": "map", "e": [["z", {"k": "int", "v": "5"}]]},       # a record with other keys only
+               {"k": "map", "e": []},                                    # an empty record
+               {"k": "null"},                                            # a null member
+               {"k": "int", "v": "5"}]                                   # a stray scalar
+ATTR_TERMS = ["5", "1", "ab", "true", "None", "a", "4"]
+
+
+def attr_record_cases(rng, tier):
+    """Searches on a NAMED attribute over lists of records in which some records have no value at the attribute: every
+    list of <= 3 members (and seeded random lists of 4-7) over {a record holding the attribute with one of 5 values
+    (int, int, text, Boolean, null), a record with other keys only, an empty record, a null member, a stray scalar} with
+    at least one record holding the attribute, at the root and under a key, the attribute being a key of the record (`a`)
+    or a path into it (`a.b`, the descendant search) x the nine operators x terms.  A member is {"v": scalar json} (its
+    own value at the attribute) or {"absent": form}."""
+    pool = [{"v": hay_to_json(v)} for v in ATTR_VALUES] + [{"absent": i} for i in range(len(ATTR_ABSENT))]
+    lists = [list(t) for n in (1, 2, 3) for t in itertools.product(range(len(pool)), repeat=n)]
+    nrand = 600 if tier == "quick" else 12000
+    lists += [[rng.randrange(len(pool)) for _ in range(rng.randint(4, 7))] for _ in range(nrand)]
+    cases = []
+    for li, idxs in enumerate(lists):
+        members = [pool[i] for i in idxs]
+        if not any("v" in x for x in members):
+            continue
+        for m in cc.METHODS:
+            terms = ATTR_TERMS if len(idxs) <= 2 else rng.sample(ATTR_TERMS, 2)
+            for ti, t in enumerate(terms):
+                if m == "REGEX" and t == "":
+                    continue
+                cases.append({"members": members, "under": (li + ti) % 2 == 1, "deep": (li + ti) % 4 >= 2 if len(idxs) > 2 else ti % 2 == 1,
+                              "m": m, "t": t})
+    return cases
+
+
+def attr_doc(c):
+    """The document of a named-attribute case, and the attribute text."""
+    items = []
+    for x in c["members"]:
+        if "v" in x:
+            val = {"k": "map", "e": [["b", x["v"]], ["c", {"k": "int", "v": "0"}]]} if c["deep"] else x["v"]
+            items.append({"k": "map", "e": [["n", {"k": "str", "v": "r%d" % len(items)}], ["a", val]]})
+        else:
+            form = ATTR_ABSENT[x["absent"]]
+            if c["deep"] and x["absent"] == 1:
+                # the first key of the path is there, the value it leads to is not
+                form = {"k": "map", "e": [["a", {"k": "map", "e": [["c", {"k": "int", "v": "5"}]]}]]}
+            items.append(form)
+    seq = {"k": "seq", "i": items}
+    docj = {"k": "map", "e": [["records", seq], ["z", {"k": "int", "v": "0"}]]} if c["under"] else seq
+    return docj, ("a.b" if c["deep"] else "a")
+
+
+def attr_chunk(cases):
+    """`[a OP term]` / `[a!OP term]` (and `[a.b OP term]`) over a list of records on the real Processor.  Each record is
+    answered from its OWN value at the attribute: the plain search must yield exactly the records that have a value there
+    which the typed rules match (model `C12.attrscan` = Props `attr_plain_is_filter`), never a record without one, and
+    the inverted search exactly the other members (`attr_inverted_is_complement`); the complement clause is also judged
+    directly on the two real results."""
+    from yamlpath import YAMLPath
+    from yamlpath.path import SearchTerms
+    drv = core.Driver()
+    stats = {"n": 0, "oom": 0, "nontrivial": 0, "skipped": 0, "sites": {}}
+    viol, samples = [], []
+    prepared = []
+    for c in cases:
+        docj, attr = attr_doc(c)
+        pre = "records" if c["under"] else ""
+        tt = "/%s/" % c["t"] if c["m"] == "REGEX" else c["t"]
+        outs, okp = [], True
+        for inv in ("", "!"):
+            path = "%s[%s%s%s%s]" % (pre, attr, inv, OPS[c["m"]], tt)
+            st, val = cc.guarded(lambda: list(YAMLPath(path).escaped)[-1][1])
+            if st != "ok" or not (isinstance(val, SearchTerms) and val.method.name == c["m"] and val.term == c["t"]
+                                  and val.attribute == attr and bool(val.inverted) == bool(inv)):
+                okp = False
+                break
+            _terms, out = run_query(build_doc(docj), path)
+            outs.append((path, out))
+        stats["n"] += 2
+        if not okp:
+            stats["skipped"] += 1
+            continue
+        prepared.append((c, docj, outs))
+    cands = [[x.get("v") for x in c["members"]] for (c, _d, _o) in prepared]
+    texts = drv.ask([{"op": "C12.text", "h": h} for cs in cands for h in cs if h is not None])
+    reqs, k = [], 0
+    for (c, _d, _o), cs in zip(prepared, cands):
+        rx = []
+        for h in cs:
+            if h is None:
+                continue
+            if c["m"] == "REGEX":
+                rx.append([c["t"], texts[k]["text"], cc.rx_answer(c["t"], texts[k]["text"])])
+            k += 1
+        for invflag in (False, True):
+            reqs.append({"op": "C12.attrscan", "inv": invflag, "m": c["m"], "t": c["t"], "c": cs, "rx": rx})
+    model = drv.ask(reqs)
+    for i, (c, docj, outs) in enumerate(prepared):
+        case = dict(c, kind="attr-records", doc=docj)
+        n = len(c["members"])
+        site = "attr-records:" + ("descendant" if c["deep"] else "key")
+        stats["sites"][site] = stats["sites"].get(site, 0) + 1
+        what = " over the list of records %s" % json.dumps(codec.json_to_plain(docj))
+        bad = False
+        for (path, out), which in zip(outs, ("plain", "inverted")):
+            if "timeout" in out:
+                viol.append(("timeout", path + what + " did not return", case)); bad = True
+            elif "exc" in out:
+                bad = True
+                if c["m"] == "REGEX" and out["exc"] == "ypath":
+                    continue            # an invalid regular expression is no well-formed term
+                viol.append(("%s@%s" % (out["exc"], out["site"]),
+                             "%s search %s%s raised %s for a well-formed term" % (which, path, what, out["exc"]), case))
+        if bad:
+            continue
+        plain, inv = outs[0][1]["refs"], outs[1][1]["refs"]
+        absent = [j for j, x in enumerate(c["members"]) if "v" not in x]
+        # the property's own clauses, without a model: a record with no value at the attribute offers the operator nothing
+        # to answer from, and the inverted result is the complement of the plain one
+        if any(j in plain for j in absent):
+            viol.append(("attr-scan-mismatch:records:absent-selected",
+                         "%s selected the members %s, of which %s have no value at the attribute%s" % (
+                             outs[0][0], plain, [j for j in absent if j in plain], what), case))
+            continue
+        compl = [j for j in range(n) if j not in plain]
+        if inv != compl or any(j not in range(n) for j in plain):
+            viol.append(("inverted-not-complement:attr-records",
+                         "%s yielded the members %s, %s the members %s of %d%s" % (outs[1][0], inv, outs[0][0], plain, n, what), case))
+            continue
+        mp, mi = model[2 * i], model[2 * i + 1]
+        if mp["err"] == "outOfModel" or mi["err"] == "outOfModel":
+            stats["oom"] += 1
+            continue
+        for which, got, mo in (("plain", plain, mp), ("inverted", inv, mi)):
+            if mo["err"] is not None or got != mo["hits"]:
+                viol.append(("attr-scan-mismatch:records:%s" % which,
+                             "%s yielded the members %s; answering each record from its own value the typed rules give %s%s"
+                             % (outs[0 if which == "plain" else 1][0], got, mo["hits"] if mo["err"] is None else mo["err"], what), case))
+                bad = True
+                break
+        if bad:
+            continue
+        if plain and inv:
+            stats["nontrivial"] += 1
+            if len(samples) < 1 and absent:
+                samples.append({"case": case, "plain": plain, "inverted": inv})
+    return stats, viol[:40], [], samples
+
+
 # --------------------------------------------------------------------------- searches over collector results
 
 COLL_NUMS = [1, 9, 10, 100, 2, 20, 5, -3, -20, 1000, 0, 99]
@@ -750,6 +908,8 @@ def run(chk: core.Check):
             res = [coll_chunk([c])]
         elif c.get("kind") == "records":
             res = [rec_chunk([c])]
+        elif c.get("kind") == "attr-records":
+            res = [attr_chunk([c])]
         elif c.get("kind") == "typed" or "text" in c:
             res = [cc.compare_typed_chunk([c["text"]]) + ([],)]
         else:
@@ -801,6 +961,11 @@ def run(chk: core.Check):
     chk.extra_cov["record_list_cases"] = len(recs)
     for st, viol, disag, samples in core.pmap(rec_chunk, core.chunked(recs, 64)):
         _absorb(chk, "records", st, viol, disag, samples)
+    # (4c) named-attribute searches over lists of records, some of which have no value at the attribute
+    attrs = attr_record_cases(random.Random(chk.seed * 5 + 2), tier)
+    chk.extra_cov["attr_record_cases"] = len(attrs)
+    for st, viol, disag, samples in core.pmap(attr_chunk, core.chunked(attrs, 64)):
+        _absorb(chk, "attr-records", st, viol, disag, samples)
     # (5) the operators behind (nested) collectors
     colls = collector_cases(random.Random(chk.seed * 13 + 5), tier)
     chk.extra_cov["collector_cases"] = len(colls)
